@@ -40,6 +40,10 @@ def _payload_decodes(t, acc=None, conds=()):
     acc = acc if acc is not None else []
     if not isinstance(t, tuple) or not t:
         return acc
+    if not isinstance(t[0], str):
+        for x in t:
+            _payload_decodes(x, acc, conds)
+        return acc
     if t[0] == 'call' and t[1] == 'change_base' and len(t[2]) >= 3 and t[2][1] == 58:
         if (t, conds) not in acc:
             acc.append((t, conds))
